@@ -737,7 +737,7 @@ impl Prop for C04 {
         true
     }
     fn random_cases(tier: Tier) -> u64 {
-        tier.pick(40_000, 600_000)
+        tier.pick(40_000, 6_000_000)
     }
     fn strategy(tier: Tier) -> BoxedStrategy<Case> {
         let max_size = tier.pick(24u8, 80);
